@@ -164,7 +164,23 @@ func excluded(name string, present func() bool) bool {
 		}
 		return true
 	}
-	return present()
+	// the probe runs against the tree under test, which may be broken in some other way (a
+	// mutation trial): a probe that panics or does not return excludes nothing
+	ch := make(chan bool, 1)
+	go func() {
+		defer func() {
+			if recover() != nil {
+				ch <- false
+			}
+		}()
+		ch <- present()
+	}()
+	select {
+	case r := <-ch:
+		return r
+	case <-time.After(3 * time.Second):
+		return false
+	}
 }
 
 // excludeOrphanGeneration: CleanEmptyGenerations while a load is in flight can drop the
